@@ -494,10 +494,49 @@ def _is_loop_test(head, node):
     return False
 
 
+def _attach_empty(ctx):
+    """C04.3: a server enters the tree (or changes its parent) empty.  The
+    instances of a server whose definition changed come back through
+    restore_placement, i.e. through the admission of every new ancestor;
+    moving the live object with its instances would carry them past the
+    rack / pod limits of the new place."""
+    loader = ctx.index.get_class(K.LOADER, 'Loader')
+    master = ctx.index.get_class(K.MASTER, 'Master')
+    seen = 0
+    for cls in (loader, master):
+        for func in cls.live_methods():
+            defs = {}
+            for sub in K.walk_no_nested(func.node):
+                if isinstance(sub, ast.Assign) and len(sub.targets) == 1 \
+                        and isinstance(sub.targets[0], ast.Name):
+                    defs.setdefault(sub.targets[0].id, []).append(sub.value)
+            for call in K.calls(func.node):
+                if not (K.is_meth(call, 'add_node') and call.args):
+                    continue
+                seen += 1
+                arg = call.args[0]
+                vals = defs.get(arg.id, [arg]) if isinstance(
+                    arg, ast.Name) else [arg]
+                live = [v for v in vals
+                        if 'self.servers' in N.txt(v) or
+                        'cell.members()' in N.txt(v)]
+                ctx.ob('C04.3', func, call, not live,
+                       'the node attached is a fresh object or a bucket, '
+                       'never a server of the running model (which may hold '
+                       'instances)' if not live else
+                       'a server of the running model is attached to a '
+                       'parent together with its instances: they are not '
+                       're-admitted against the limits of the new '
+                       'ancestors (%s)' % N.txt(live[0]),
+                       construct='attach %s' % N.txt(arg))
+    ctx.require(seen >= 3, 'add_node call sites of the loader')
+
+
 def check(ctx):
     node_cls, server = _counters(ctx)
     base = _polarity(ctx, node_cls)
     _every_level(ctx, node_cls, server, base)
+    _attach_empty(ctx)
 
 
 _S = 'lib/python/treadmill/scheduler/__init__.py'
